@@ -1100,6 +1100,9 @@ func C15(run *report.Run) {
 		heightC15(run, acc, 2, 8)
 		heightC15(run, acc, 3, 5)
 		structC15(run, acc)
+		adjacentC15(run, acc, 2, 1500)
+		adjacentC15(run, acc, 3, 1500)
+		adjacentC15(run, acc, 4, 1500)
 		ruler := []uint8{0, 1, 0, 2, 0, 1, 0, 3, 0, 1, 0, 2, 0, 1, 0}
 		wideC15With(run, acc, 1, 2, ruler, 5)
 		wideC15With(run, acc, 3, 2, ruler, 5)
